@@ -28,6 +28,13 @@ BB SC 1 0.30 100
 B 1
 [ atoms ]
 1 TB 1 B BB 1 0.0 1.0
+[ moleculetype ]
+C 1
+[ atoms ]
+1 TC 1 C BB 1 0.0 1.0
+2 TC 1 C SC 2 0.0 1.0
+[ bonds ]
+BB SC 1 0.32 120
 """
 # a residue with two atoms of the same name (only possible in .itp syntax): a link atom `BB` matches two atoms there
 BLOCK_D_ITP = """[ moleculetype ]
@@ -45,7 +52,7 @@ D 1
 
 
 def has(R, u, atom):
-    return {"A": ["BB", "SC"], "B": ["BB"], "D": []}[R["names"][u]].count(atom) == 1     # D: `BB` is ambiguous -> never exactly one
+    return {"A": ["BB", "SC"], "B": ["BB"], "C": ["BB", "SC"], "D": []}[R["names"][u]].count(atom) == 1     # D: `BB` is ambiguous -> never exactly one
 
 
 def plain_edge(R, u, v):
@@ -166,6 +173,32 @@ def rule_remove(direction):
     return rule
 
 
+L_ATOM_RESNAME = '[ link ]\n[ atoms ]\nBB {"resname": "A"}\nSC {}\n+BB {"resname": "A"}\n[ bonds ]\nBB +BB 1 0.36 3600\n[ angles ]\nSC BB +BB 1 121 51\n'
+L_GT_GTGT = '[ link ]\nresname "A|B|C"\n[ bonds ]\nBB >BB 1 0.33 500\nBB >>BB 1 0.44 600\n[ angles ]\n>BB BB >>BB 1 122 52\n'
+
+
+def rule_atom_resname(R):
+    """resname given on the backbone atoms only: both residues must be A although the side-chain atom carries no name"""
+    out = set()
+    for u, v in itertools.permutations(range(R["n"]), 2):
+        if plain_edge(R, u, v) and R["rank"][v] == R["rank"][u] + 1 and R["names"][u] == "A" and R["names"][v] == "A":
+            out.add(("bonds", ((R["rank"][u], "BB"), (R["rank"][v], "BB")), ("1", "0.36", "3600")))
+            out.add(("angles", ((R["rank"][u], "SC"), (R["rank"][u], "BB"), (R["rank"][v], "BB")), ("1", "121", "51")))
+    return out, {}
+
+
+def rule_gt_gtgt(R):
+    """centre residue (order 0) bonded to a later residue (>) and a still later one (>>), which are not bonded to each other"""
+    out = set()
+    for c, x, y in itertools.permutations(range(R["n"]), 3):
+        if plain_edge(R, c, x) and plain_edge(R, c, y) and frozenset((x, y)) not in R["edges"] \
+                and R["rank"][c] < R["rank"][x] < R["rank"][y] and all(R["names"][k] in "ABC" and has(R, k, "BB") for k in (c, x, y)):
+            out.add(("bonds", ((R["rank"][c], "BB"), (R["rank"][x], "BB")), ("1", "0.33", "500")))
+            out.add(("bonds", ((R["rank"][c], "BB"), (R["rank"][y], "BB")), ("1", "0.44", "600")))
+            out.add(("angles", ((R["rank"][x], "BB"), (R["rank"][c], "BB"), (R["rank"][y], "BB")), ("1", "122", "52")))
+    return out, {}
+
+
 def rule_prev(R):
     out = set()
     for u, v in itertools.permutations(range(R["n"]), 2):
@@ -200,13 +233,16 @@ CATALOGUE = {
     "replace": (L_REPL, rule_replace),
     "end cap with non-edge": (L_BOND + L_CAP, rule_cap_after(rule_next_bond("ABD", ("1", "0.40", "400")))),
     "pattern": (L_PATTERN, rule_pattern),
+    "resname on some atoms only": (L_ATOM_RESNAME, rule_atom_resname),
+    "centre with > and >> neighbours": (L_GT_GTGT, rule_gt_gtgt),
     "remove atom at chain start": (L_BOND + L_REMOVE_START, rule_remove(-1)),
     "remove atom at chain end": (L_BOND + L_REMOVE_END, rule_remove(1)),
     "same atoms, same version: last wins": (L_OVER1 + L_OVER2, rule_last_wins),
     "same atoms, different version: both": (L_OVER1 + L_OVER2_V2, rule_union(rule_next_bond("AB", ("1", "0.40", "400")), rule_next_bond("AB", ("1", "0.90", "900")))),
 }
 Q_LINKS = ["next bond", "three-residue angle", "later residue (>)", "other residue (*)", "replace", "end cap with non-edge",
-           "same atoms, same version: last wins", "pattern", "remove atom at chain start", "remove atom at chain end"]
+           "same atoms, same version: last wins", "pattern", "remove atom at chain start", "remove atom at chain end",
+           "resname on some atoms only", "centre with > and >> neighbours"]
 
 
 def observed(meta):
@@ -237,7 +273,8 @@ def catalogue(sx, B):
     lname = sx.sel("link", B["links"])
     n = int(sx.int("n", 2, B["nmax"]))
     shape = sx.sel("shape", sorted(GRAPHS[n]))
-    names = [sx.sel("res%d" % i, B["names"] + (["D"] if B["dup"] and i == 1 else [])) for i in range(n)]
+    extra = ["C"] if lname in ("resname on some atoms only", "centre with > and >> neighbours") else []
+    names = [sx.sel("res%d" % i, B["names"] + extra + (["D"] if B["dup"] and i == 1 else [])) for i in range(n)]
     perm = sx.sel("resid_order", list(itertools.permutations(range(n)))[:6])
     keyf = sx.sel("node_keys", ["0..n-1", "strings"])
     label = sx.sel("labelled_edge", [None, 0])
@@ -278,7 +315,7 @@ def catalogue(sx, B):
                     lambda: what() + ": residue ids of the atoms are start + %r" % ranks_seen):
         return
     # atoms present: all block atoms minus the removed ones
-    want_atoms = sorted((perm[i], a) for i in range(n) for a in {"A": ["BB", "SC"], "B": ["BB"], "D": ["BB", "BB"]}[names[i]]
+    want_atoms = sorted((perm[i], a) for i in range(n) for a in {"A": ["BB", "SC"], "B": ["BB"], "C": ["BB", "SC"], "D": ["BB", "BB"]}[names[i]]
                         if (perm[i], a) not in removed)
     got_atoms = sorted((rank_of_atom[a], mol.nodes[a]["atomname"]) for a in mol.nodes)
     if removed:
@@ -287,7 +324,7 @@ def catalogue(sx, B):
                     lambda: what() + ": atoms %r expected %r" % (got_atoms, want_atoms)):
         return
     # intra-residue block interactions survive unless they touch a removed atom
-    want_intra = sorted((perm[i], "bonds") for i in range(n) if names[i] in "AD" and (perm[i], "SC") not in removed)
+    want_intra = sorted((perm[i], "bonds") for i in range(n) if names[i] in "ACD" and (perm[i], "SC") not in removed)
     got_intra = sorted((rank_of_atom[inter.atoms[0]], t) for t, lst in mol.interactions.items() for inter in lst
                        if len(set(rank_of_atom[a] for a in inter.atoms)) == 1)
     sx.claim(got_intra == want_intra, "block interactions are kept unless they touch a removed atom",
@@ -305,12 +342,13 @@ def catalogue(sx, B):
     want_edges = set()
     for (t, atoms, _) in want_inter:
         for x, y in zip(atoms[:-1], atoms[1:]):
-            want_edges.add(frozenset((x, y)))
+            if x[0] != y[0]:
+                want_edges.add(frozenset((x, y)))
     got_edges = set(frozenset((tag(a), tag(b))) for a, b in mol.edges if rank_of_atom[a] != rank_of_atom[b])
     sx.claim(got_edges == want_edges, "inter-residue edges are exactly those of the applied links",
              lambda: what() + ": %r expected %r" % (sorted(map(sorted, got_edges)), sorted(map(sorted, want_edges))))
     # attribute replacement
-    base_atype = {("A", "BB"): "TA", ("A", "SC"): "TS", ("B", "BB"): "TB", ("D", "BB"): "TD"}
+    base_atype = {("A", "BB"): "TA", ("A", "SC"): "TS", ("B", "BB"): "TB", ("D", "BB"): "TD", ("C", "BB"): "TC", ("C", "SC"): "TC"}
     for a in mol.nodes:
         nd = mol.nodes[a]
         exp = dict(atype=base_atype[(nd["resname"], nd["atomname"])])
